@@ -93,6 +93,14 @@ structure Table where
   rnLens : Option (Array Nat) := none
 deriving Repr, Inhabited
 
+/-- one automaton inside the table: start state, augmented production, its start symbol
+    (the main automaton, and the layout automaton when the grammar has a Layout rule) -/
+structure Auto where
+  start : Nat
+  aug : Nat
+  sym : Nat
+deriving DecidableEq, Repr
+
 def Table.cell (t : Table) (s a : Nat) : List Action :=
   match t.states[s]? with
   | some st => st.actions.getD a []
